@@ -36,6 +36,8 @@ type task struct {
 	HdrMasks []int `json:"hdr_masks,omitempty"`
 	// single
 	Single *replayDoc `json:"single,omitempty"`
+	// second generation (gen2.go): run from the images of this task
+	G2 *g2task `json:"g2,omitempty"`
 }
 
 // replayDoc identifies one evaluated case completely.
@@ -53,6 +55,9 @@ type replayDoc struct {
 	Mask    int      `json:"mask,omitempty"`
 	Expect  string   `json:"expected,omitempty"`
 	Observe string   `json:"observed,omitempty"`
+	// second generation: configuration to re-run from the image, and the failing case
+	G2     *g2task `json:"g2,omitempty"`
+	G2Case string  `json:"g2_case,omitempty"`
 }
 
 type vio struct {
@@ -79,6 +84,8 @@ type result struct {
 	Findings     []vio          `json:"findings,omitempty"`
 	Samples      []string       `json:"samples,omitempty"`
 	Ms           int64          `json:"ms"`
+	G2           *g2stats       `json:"g2,omitempty"`
+	G2Tasks      int            `json:"g2_tasks,omitempty"`
 }
 
 var scratchRoot string
@@ -240,6 +247,13 @@ func doCrash(t *task, res *result, progress func()) {
 		first = r.retObs[len(ops)-1] + 1 // after the return of the second-to-last call slot
 	}
 	seen := map[string]bool{}
+	var g2 *g2state
+	if t.G2 != nil {
+		// one generation 2 per distinct recovered state of this task
+		res.G2 = &g2stats{}
+		res.G2Tasks = 1
+		g2 = &g2state{cfg: t.G2, seg: t.Seg, seen: map[string]bool{}, stats: res.G2}
+	}
 	for k := first; k < len(r.rec.obs); k++ {
 		o := r.rec.obs[k]
 		if t.All && (o.op < t.FromOp || o.op >= t.ToOp) {
@@ -255,6 +269,7 @@ func doCrash(t *task, res *result, progress func()) {
 			res.Capped++
 		}
 		c := ctxFor(r, k, res.Classes, filepath.Join(root, "i"))
+		c.g2 = g2
 		nontrivial := false
 		for _, im := range imgs {
 			if im.sectors > res.MaxSectors {
@@ -274,7 +289,7 @@ func doCrash(t *task, res *result, progress func()) {
 			if im.short {
 				res.Short++
 			}
-			announce(replayDoc{Mode: "crash", Seg: t.Seg, Ops: t.Ops, Long: t.Long, MaxBits: t.MaxBits, Point: k, PointAt: o.label, Image: im.desc})
+			announce(replayDoc{Mode: "crash", Seg: t.Seg, Ops: t.Ops, Long: t.Long, MaxBits: t.MaxBits, Point: k, PointAt: o.label, Image: im.desc, G2: t.G2})
 			c.shapeTag = imageShape(o, im)
 			fs := c.evalImage(im.files)
 			if len(res.Samples) < 2 && im.mixed {
@@ -282,9 +297,14 @@ func doCrash(t *task, res *result, progress func()) {
 			}
 			for _, f := range fs {
 				if len(res.Findings) < 6 {
-					res.Findings = append(res.Findings, vio{F: f, Replay: replayDoc{Mode: "crash", Seg: t.Seg, Ops: t.Ops, Long: t.Long,
+					d := replayDoc{Mode: "crash", Seg: t.Seg, Ops: t.Ops, Long: t.Long,
 						MaxBits: t.MaxBits, Point: k, PointAt: o.label, Image: im.desc,
-						Expect: fmt.Sprintf("replay of the first p records, %d <= p <= %d", c.lo, c.hi), Observe: f.Detail}})
+						Expect: fmt.Sprintf("replay of the first p records, %d <= p <= %d", c.lo, c.hi), Observe: f.Detail}
+					if f.G2 != "" {
+						d.G2, d.G2Case = t.G2, f.G2
+						d.Expect = "generation 2: replay of the recovered state + the first q generation-2 records, acknowledged <= q <= written"
+					}
+					res.Findings = append(res.Findings, vio{F: f, Replay: d})
 				}
 			}
 		}
@@ -373,6 +393,10 @@ func doSingle(d *replayDoc, res *result, verbose bool) {
 		}
 		imgs, _ := r.rec.crashImages(d.Point, mb)
 		c := ctxFor(r, d.Point, res.Classes, filepath.Join(root, "i"))
+		if d.G2 != nil {
+			res.G2 = &g2stats{}
+			c.g2 = &g2state{cfg: d.G2, seg: d.Seg, seen: map[string]bool{}, stats: res.G2, verbose: verbose}
+		}
 		found := false
 		for _, im := range imgs {
 			if im.desc != d.Image {
